@@ -60,6 +60,7 @@ const (
 	StmtDeallocate
 	StmtKill
 	StmtLoad
+	StmtWith
 )
 const (
 	eofChar = 0x100
@@ -148,6 +149,8 @@ func Preview(sql string) int {
 		return StmtPrepare
 	case "execute":
 		return StmtExecute
+	case "with":
+		return StmtWith
 	}
 
 	return StmtUnknown
@@ -163,6 +166,113 @@ func PreviewSpecialComment(sql string) int {
 		trimmed = StripLeadingComments(specCodeStart.ReplaceAllString(trimmed, ""))
 	}
 	return Preview(trimmed)
+}
+
+// PreviewMainStatement returns the type of the statement that decides what a
+// text does when Preview only sees what it is wrapped in: the code of a leading
+// "/*!40101 ... */" comment, and the statement that follows the common table
+// expressions of "WITH ... AS (...) DELETE ...". It answers StmtWith when the
+// statement a WITH clause leads to cannot be told.
+func PreviewMainStatement(sql string) int {
+	for {
+		stmtType := Preview(sql)
+		switch stmtType {
+		case StmtComment:
+			// drop "/*!", the optional version number and the blanks after it
+			sql = specCodeStart.ReplaceAllString(StripLeadingComments(sql), "")
+		case StmtWith:
+			isNotLetter := func(r rune) bool { return !unicode.IsLetter(r) }
+			main, ok := withMainStatement(strings.TrimLeftFunc(StripLeadingComments(sql), isNotLetter))
+			if !ok {
+				return StmtWith
+			}
+			sql = main
+		default:
+			return stmtType
+		}
+	}
+}
+
+// withMainStatement returns the statement that follows the common table
+// expressions of a text that starts with the word WITH:
+//
+//	WITH [RECURSIVE] name [(columns)] AS (query) [, name [(columns)] AS (query)] ... statement
+//
+// After a parenthesis that closes at the outermost level comes AS (it was a
+// column list), a comma (another expression follows) or the statement itself.
+// ok is false when no statement is found, when a comment or a quoted text is
+// not closed, and when the answer depends on the backend: a quoted text holds
+// a backslash (where it ends depends on the sql_mode) or there is a
+// "/*! ... */" or "/*M! ... */" comment (code or comment, depending on the
+// version and make of the server).
+func withMainStatement(sql string) (main string, ok bool) {
+	depth := 0
+	closed := false
+	for i := 0; i < len(sql); {
+		c := sql[i]
+		// white space and comments
+		switch {
+		case c == ' ' || ('\t' <= c && c <= '\r'):
+			i++
+			continue
+		case c == '#' || (c == '-' && i+1 < len(sql) && sql[i+1] == '-' && (i+2 == len(sql) || sql[i+2] <= ' ' || sql[i+2] == 0x7f)):
+			end := strings.IndexByte(sql[i:], '\n')
+			if end < 0 {
+				return "", false
+			}
+			i += end + 1
+			continue
+		case c == '/' && i+1 < len(sql) && sql[i+1] == '*':
+			if strings.HasPrefix(sql[i+2:], "!") || strings.HasPrefix(sql[i+2:], "M!") {
+				return "", false
+			}
+			end := strings.Index(sql[i+2:], "*/")
+			if end < 0 {
+				return "", false
+			}
+			i += end + 4
+			continue
+		}
+		word := 0
+		for i+word < len(sql) && isIdentByte(sql[i+word]) {
+			word++
+		}
+		if closed {
+			isAs := word == 2 && sql[i]|0x20 == 'a' && sql[i+1]|0x20 == 's'
+			if c != ',' && !isAs {
+				return sql[i:], true
+			}
+			closed = false
+		}
+		switch {
+		case word > 0:
+			i += word
+		case c == '\'' || c == '"' || c == '`':
+			end := strings.IndexByte(sql[i+1:], c)
+			if end < 0 || strings.IndexByte(sql[i+1:i+1+end], '\\') >= 0 {
+				return "", false
+			}
+			i += end + 2
+		case c == '(':
+			depth++
+			i++
+		case c == ')':
+			if depth == 0 {
+				return "", false
+			}
+			depth--
+			closed = depth == 0
+			i++
+		default:
+			i++
+		}
+	}
+	return "", false
+}
+
+// isIdentByte tells whether a byte can be part of an unquoted identifier or keyword.
+func isIdentByte(c byte) bool {
+	return ('a' <= c && c <= 'z') || ('A' <= c && c <= 'Z') || ('0' <= c && c <= '9') || c == '_' || c == '$' || c >= 0x80
 }
 
 // StmtType returns the statement type as a string
